@@ -35,7 +35,7 @@ ASSUMPTIONS = ["data compared exactly as float32(saved data)", "frames have >= 3
 PROBES = ["derived_of_loaded_frame_saved", "derived_after_get_waterfall_saved", "loaded_resaved", "copy_saved", "pickled_saved",
           "format_fil", "format_h5", "descending", "ascending", "clock_jump", "refsigproc_input", "helpers_checked", "sliced_saved",
           "dedrifted_saved", "sibling_frames_alive", "retimed_after_history", "data_rebound_after_waterfall", "saved_over_existing_file",
-          "save_failed_then_frame_used_again"]
+          "save_failed_then_frame_used_again", "frame_from_time_selected_waterfall"]
 
 
 def generate(rng, tier):
@@ -79,6 +79,12 @@ def generate(rng, tier):
         else:
             ops.append({"op": "save", "fr": fr, "fmt": rng.choice(["fil", "fil", "h5", "h5b"]), "overwrite": rng.random() < 0.25,
                         "load_form": rng.choice(["str", "str", "path", "object", "from_waterfall"])})
+            if rng.random() < 0.25:
+                ops[-1]["partial"] = rng.randrange(1, 16)
+                # ... and a later op often works on that part (the pool's newest member)
+                if rng.random() < 0.7:
+                    ops.append({"op": "save", "fr": -1, "fmt": rng.choice(["fil", "h5"]), "overwrite": False,
+                                "load_form": rng.choice(["str", "object"])})
     ops.append({"op": "save", "fr": rng.randrange(0, 8), "fmt": rng.choice(["fil", "fil", "h5"]),
                 "load_form": rng.choice(["str", "str", "path", "object", "from_waterfall"])})
     # sibling frames alive in the same session (own geometry, own source name): their operations interleave
@@ -398,6 +404,20 @@ def execute(sc, ctx):
                 if loaded is not None:
                     pool.append(loaded)
                     hist[id(loaded)] = ["loaded"]
+                if loaded is not None and op.get("partial") and fr.tchans >= 4 and fmt != "h5b":
+                    # one more way a frame is obtained: from a blimpy Waterfall opened on part of the file (a time
+                    # selection that does not start at the first integration).  The part is a frame like any other
+                    from blimpy import Waterfall
+                    a = 1 + op["partial"] % (fr.tchans - 3)
+                    b = fr.tchans
+                    part = stg.Frame(waterfall=Waterfall(path, t_start=a, t_stop=b))
+                    ctx.hit("frame_from_time_selected_waterfall")
+                    ctx.event("partial", part.data)
+                    if ctx.check(part.data.shape == (b - a, fr.fchans) and np.array_equal(
+                            np.asarray(part.data, dtype=np.float32), fr.data.astype(np.float32)[a:b]), "data",
+                            "C03/partial_load/rows_differ", lambda: "shape %s, want rows %d..%d" % (part.data.shape, a, b)):
+                        pool.append(part)
+                        hist[id(part)] = ["loaded", "timesel"]
         except (Exception, SystemExit) as e:
             from ..worlds.raw import innermost_setigen_frame
             ctx.violation("op", "C03/%s/raises:%s@%s/%s" % (kind + (":" + op["fmt"].replace("h5b", "h5") if kind == "save" else ""),
